@@ -61,14 +61,18 @@ def oracle(spec, run, pid=ID):
         elif e[0] == "fx":
             for k in e[3]:
                 failed.setdefault(k, (idx, nodes[e[1]]["k"], None, None, None))
+    last_piece_unlabelled = []
+
     def unlabelled_piece(node, x, k, before=None):
         """data derived from emission k reached `node` without k's counter in its metadata, and
         a one-to-many node (flatten: metadata on the last piece only) is upstream"""
-        arr = [z for z in (ev if before is None else ev[:before])
+        lim = len(ev) if before is None else before
+        arr = [(iz, z) for iz, z in enumerate(ev[:lim])
                if z[0] == "arr" and z[1] == node and z[3] is x]
         if not arr:
             return False
-        md = arr[-1][4] or []
+        at, last_arr = arr[-1]
+        md = last_arr[4] or []
         has = any(m.get("ref") is rc for m in md if isinstance(m, dict) for rc in run.rcs.get(k, []))
         if has:
             return False
@@ -79,7 +83,26 @@ def oracle(spec, run, pid=ID):
                 if u not in seen:
                     seen.add(u)
                     stack.append(u)
-        return any(nodes[a]["k"] == "flatten" for a in seen)
+        if not any(nodes[a]["k"] == "flatten" for a in seen):
+            return False
+        # the known finding is about pieces other than the last of their batch; the last piece
+        # does carry the batch's metadata.  If this arrival is the last piece of its batch (the
+        # very object flatten emitted, occurring once in the batch), the finding does not
+        # explain the missing counter.
+        for f in seen:
+            if nodes[f]["k"] != "flatten":
+                continue
+            batch, hit = None, None
+            for z in ev[:at + 1]:
+                if z[0] == "arr" and z[1] == f:
+                    batch = z[3]
+                elif z[0] == "rec" and z[1] == f and z[2] is x:
+                    hit = batch       # the batch of the most recent emission of x by f
+            if isinstance(hit, (list, tuple)) and len(hit) and hit[-1] is x and \
+                    sum(1 for b_ in hit if b_ is x) == 1:
+                last_piece_unlabelled.append((f, x))
+                return False
+        return True
 
     for T, e in enumerate(ev):
         if e[0] != "trig":
@@ -148,6 +171,11 @@ def oracle(spec, run, pid=ID):
                 continue
             add(failed[k][1], "triggered-after-failure", "a %s processing data derived from it "
                 "raised at log[%d]" % (failed[k][1], failed[k][0]))
+    if last_piece_unlabelled:
+        f, x = last_piece_unlabelled[0]
+        v.append(("%s:flatten:last-piece-carries-no-metadata" % ID, "flatten node %d passed on the "
+                  "last piece %r of a batch without the batch's counter, which was triggered while "
+                  "that piece was still being processed" % (f, x)))
     return v
 
 
